@@ -203,7 +203,7 @@ theorem Heap.parse {g s} (hs : Heap g s) (b : Blk) : Heap g (parse s b).1 := by
   · have := hs.materialize (s.getBlock b.id)
     split <;> simp_all
 
-theorem Heap.build {g s} (hs : Heap g s) (n : Nat) : Heap g (build s n).1 := by
+theorem Heap.build {g s} (hs : Heap g s) (n : Nat) (c : Option Nat) : Heap g (build s n c).1 := by
   unfold HyperModel.Snow.build
   dsimp only
   split
@@ -327,18 +327,24 @@ theorem Heap.setVerified {g s} (hs : Heap g s) (h : Nat) (out : Out)
 theorem chainVerify_blk {po b o} (h : chainVerify po b = some o) : o.blk = b := by
   unfold chainVerify at h; split at h <;> simp at h; subst h; rfl
 
-theorem Heap.verify {g s} (hs : Heap g s) (h : Nat) (hh : h < s.nobj) : Heap g (verify s h).1 := by
+theorem Heap.verify {g s} (hs : Heap g s) (h : Nat) (c : Option Nat) (hh : h < s.nobj) :
+    Heap g (verify s h c).1 := by
   unfold HyperModel.Snow.verify
   dsimp only
   simp only [hs.ready, Bool.not_true, Bool.false_eq_true, if_false]
   split
-  · exact hs.vbSet _ _ hh rfl
+  · split
+    · exact hs.vbSet _ _ hh rfl
+    · exact hs
   · split
     · exact hs
-    · rename_i p hp
+    next p hp =>
       split
       · exact hs
-      · rename_i hv
+      next hv =>
+      split
+      · exact hs
+      next =>
         simp only [Bool.not_eq_true', Bool.not_eq_false] at hv
         have hv' : p.verified = true := by simpa using hv
         obtain ⟨po, a1, a2, a3⟩ := hs.parent_lookup _ p hp hv'
